@@ -124,6 +124,7 @@ int main(int argc, char** argv)
     if (perturb) vctl::install(seed, 35, 100, 60, "dq.,ciq.");
     vlog::rng R(seed * 2654435761u + 99);
 
+    std::unique_ptr<pika::threads::detail::lockfree_fifo_backend<int>> g_fifo;
     for (int h = 0; h < nhist; ++h)
     {
         container c;
@@ -146,7 +147,12 @@ int main(int argc, char** argv)
                 std::make_unique<pika::concurrency::detail::contiguous_index_queue<std::uint32_t>>(
                     (std::uint32_t) first, (std::uint32_t) last);
             break;
-        case t_fifo: c.fifo = std::make_unique<pika::threads::detail::lockfree_fifo_backend<int>>(8); break;
+        case t_fifo:
+            // the FIFO back-end lives across histories (it is drained at the end of each): the threads of
+            // earlier histories have exited, so new threads are handed their recycled producer slots
+            if (g_fifo) c.fifo = std::move(g_fifo);
+            else c.fifo = std::make_unique<pika::threads::detail::lockfree_fifo_backend<int>>(8);
+            break;
         case t_lifo: c.lifo = std::make_unique<pika::threads::detail::lockfree_lifo_backend<int>>(4); break;
         case t_abp_fifo:
             c.abpf = std::make_unique<pika::threads::detail::lockfree_abp_fifo_backend<int>>(4);
@@ -195,6 +201,14 @@ int main(int argc, char** argv)
                 break;
             }
             if (o.o == push_left || o.o == push_right || o.o == enq) o.v = nextv++;
+            // FIFO back-end: every thread starts with an enqueue right at the start signal (first pushes of
+            // several new threads at the same moment)
+            if (c.type == t_fifo && scripts[t].empty())
+            {
+                if (o.o != enq) o.v = nextv++;
+                o.o = enq;
+                o.spin = 0;
+            }
             scripts[t].push_back(o);
         }
 
@@ -232,6 +246,7 @@ int main(int argc, char** argv)
             if (++n > 1000) break;
         }
         ev("drained").i("n", n).done();
+        if (c.type == t_fifo) g_fifo = std::move(c.fifo);
         ev("reset").done();
     }
     vlog::flush();
